@@ -112,6 +112,9 @@ type c01Env struct {
 	// caller was given must stay a readable package whatever is called afterwards (seed C01-d2)
 	kept    [][]byte
 	keptSum [][32]byte
+	// an engine that loaded the document object as a template when the object was new (before any operation of
+	// the history): the caller keeps editing the base and renders later
+	early *document.TemplateEngine
 }
 
 func (x *c01Env) e(err error) {
@@ -689,6 +692,23 @@ func c01Alphabet() []c01HOp {
 		x.doc = d
 		x.refresh()
 	}
+	add("template:render through an engine that loaded this document object while it was still empty", func(x *c01Env) {
+		if x.early == nil {
+			x.note += " render:no-early-engine"
+			return
+		}
+		td := document.NewTemplateData()
+		td.SetVariable("v", H)
+		td.SetCondition("c", true)
+		var d *document.Document
+		var err error
+		if p := guard(func() { d, err = x.early.RenderTemplateToDocument("early", td) }); p != "" || err != nil || d == nil {
+			x.note += " render:failed"
+			return
+		}
+		x.doc = d
+		x.refresh()
+	})
 	add("template:RenderTemplateToDocument(v=hostile)", func(x *c01Env) { render(x, true) })
 	add("template:RenderToDocument(v=hostile)", func(x *c01Env) { render(x, false) })
 	return al
@@ -1399,6 +1419,14 @@ func c01Exec(cs c01Case, dir, out string) c01Result {
 	var res c01Result
 	document.VerifResetGlobals()
 	x := &c01Env{doc: document.New(), dir: dir, out: out}
+	if cs.part == "histories" || cs.part == "deep-histories" {
+		guard(func() {
+			eng := document.NewTemplateEngine()
+			if _, err := eng.LoadTemplateFromDocument("early", x.doc); err == nil {
+				x.early = eng
+			}
+		})
+	}
 	if p := guard(func() { cs.build(x) }); p != "" {
 		// a panicking constructor/setter produced no saved bytes; not this property's subject
 		res.outcome = "build-panic:" + panicClass(p)
